@@ -1900,7 +1900,9 @@ class ConstraintSignature(BaseSignature):
             The hash of the signature.
         """
         return hash('<ConstraintSignature(name=%r, type=%r, attrs=%r)>'
-                    % (self.name, self.type, self._get_comparable_attrs()))
+                    % (self.name, self.type,
+                       sorted(six.iteritems(self._get_comparable_attrs()),
+                              key=lambda pair: pair[0])))
 
     def __repr__(self):
         """Return a string representation of the signature.
